@@ -9,6 +9,7 @@ import (
 func init() {
 	vRegister("HarnessC15_maps", HarnessC15_maps)
 	vRegister("HarnessC15_lists", HarnessC15_lists)
+	vRegister("HarnessC15_longlists", HarnessC15_longlists)
 	vRegister("HarnessC15_kinds", HarnessC15_kinds)
 	vRegister("HarnessC15_witness", HarnessC15_witness)
 }
@@ -118,6 +119,27 @@ func HarnessC15_lists() {
 	}
 	base := map[string]any{"l": mk(), "k": "s0"}
 	target := map[string]any{"l": mk(), "k": "s0"}
+	c15Check(base, target)
+}
+
+// HarnessC15_longlists: longer lists of scalars (base <= 2, target <= 4
+// entries; thorough 3 / 5): every pattern of repeated, kept, dropped,
+// reordered and appended entries, duplicates of base entries included.
+func HarnessC15_longlists() {
+	lb, lt := 2, 4
+	if vTier() > 0 {
+		lb, lt = 3, 5
+	}
+	mk := func(max int) []any {
+		n := ndChoice(max + 1)
+		l := []any{}
+		for i := 0; i < n; i++ {
+			l = append(l, ndScalarNN())
+		}
+		return l
+	}
+	base := map[string]any{"l": mk(lb)}
+	target := map[string]any{"l": mk(lt)}
 	c15Check(base, target)
 }
 
